@@ -24,6 +24,7 @@ type hconfig struct {
 	Quiet       []string            `json:"quiet"`
 	Skip        []string            `json:"skip"`
 	KeepTests   []string            `json:"keep_tests"`
+	NoRace      bool                `json:"no_race"`
 	Shards      map[string]int      `json:"shards"`     // tier -> processes per package
 	DeadlineS   map[string]int      `json:"deadline_s"` // tier -> internal deadline
 	Assumptions []string            `json:"assumptions"`
@@ -150,7 +151,7 @@ func main() {
 		os.Exit(code)
 	}
 	overlay, err := instr.Build(instr.Config{RepoDir: repo, VrtDir: filepath.Join(vdir, "engine", "vrt"), Harness: hfiles, OutDir: tmp,
-		Virtual: cfg.Virtual, MapOrderPkgs: cfg.MapOrder, QuietPkgs: cfg.Quiet, SkipPkgs: cfg.Skip, KeepTests: cfg.KeepTests, Tags: cfg.Tags})
+		Virtual: cfg.Virtual, MapOrderPkgs: cfg.MapOrder, QuietPkgs: cfg.Quiet, SkipPkgs: cfg.Skip, KeepTests: cfg.KeepTests, Tags: cfg.Tags, NoRace: cfg.NoRace || os.Getenv("VERIF_NO_RACE") != ""})
 	if err != nil {
 		fmt.Fprintf(os.Stderr, "INFRA-ERROR instrument: %v\n", err)
 		exit(2)
@@ -289,6 +290,8 @@ func main() {
 			die(2, "bad known_findings.json: %v", err)
 		}
 	}
+	nRaceScen := 0
+	raceScen := []string{}
 	matchKnown := func(v vrt.Violation) *knownFinding {
 		for i := range known.Findings {
 			k := &known.Findings[i]
@@ -348,6 +351,13 @@ func main() {
 			"distinct_outcomes": r.DistinctOut, "exhaustive": r.Exhaustive}
 		if r.Kind == "schedules" {
 			sm["bound_completed"] = r.BoundCompleted
+			nRaceScen++
+			if len(r.RacePairs) > 0 {
+				sm["race_pairs"] = r.RacePairs
+				sm["race_sites_made_scheduling_points"] = r.RaceSites
+				sm["race_reexplorations"] = r.RacePasses
+				raceScen = append(raceScen, r.Name)
+			}
 		}
 		if r.Kind == "histories" {
 			sm["depth_completed"] = r.DepthCompleted
@@ -369,7 +379,7 @@ func main() {
 			os.MkdirAll(replayDir, 0o755)
 			rp := filepath.Join(replayDir, v.Finger+".json")
 			b, _ := json.MarshalIndent(map[string]any{"property": id, "scenario": v.Scenario, "choices": v.Choices, "history": v.History,
-				"class": v.Class, "msgs": v.Msgs, "log": v.Log, "tier": tier}, "", " ")
+				"class": v.Class, "msgs": v.Msgs, "log": v.Log, "tier": tier, "race_sites": v.RaceSites}, "", " ")
 			os.WriteFile(rp, b, 0o644)
 			fmt.Printf("VIOLATION property=%s replay=%s\n", id, rp)
 			fmt.Printf("  scenario: %s\n  %s\n", v.Scenario, strings.Join(v.Msgs, "\n  "))
@@ -390,6 +400,13 @@ func main() {
 		"rule":    firstNonEmpty(cfg.Rule, "every explored trace is an execution of the instrumented real code; states = schedules at the largest completed bound (schedule search), canonical states (history search) or distinct non-trivial input classes (input enumeration); distinct_nontrivial = sum over scenarios of distinct observable outcomes (schedule search) or distinct canonical states / input classes"),
 		"samples": samples, "exhaustive": exhaustive, "scheduling_points": points, "scenarios": len(results), "scenario_summaries": scen,
 		"build_s": buildS, "shards": shards, "packages": pkgDirs,
+	}
+	if nRaceScen > 0 {
+		cov["race_detection"] = map[string]any{
+			"method":                      "plain memory accesses of the code under test are announced by the instrumenter; vector clocks over every tracked synchronisation operation; unordered conflicting accesses become scheduling points and the scenario is explored again",
+			"schedule_scenarios_watched":  nRaceScen,
+			"scenarios_with_racy_accesses": raceScen,
+		}
 	}
 	if maxBound >= 0 {
 		cov["preemption_bound_completed_min"] = minBound
